@@ -8,7 +8,11 @@ class C06(Prop):
                 "C06_bb_chrom_summary", "C06_bb_summary", "C06_bb_item_count", "C06_bb_file_summary", "C06_bb_summary_ieee",
                 # the reader on the bytes of the written file (C01 / C02 whole-file developments + the f64 field codec)
                 "C06_f64_roundtrip", "C06_bw_file_stored", "C06_bw_file_summary", "C06_bw_file_summary_ieee",
-                "C06_bb_file_summary_read", "C06_bb_file_item_count"]
+                "C06_bb_file_summary_read", "C06_bb_file_item_count",
+                # IEEE = exact on a checkable domain (Proofs/FloatExact.v)
+                "C06_fadd_ieee_exact", "C06_fmul_ieee_exact", "C06_to_f32_ieee_exact", "C06_grid_fadd_ieee", "C06_grid_fmul_ieee",
+                "C06_fold_sum_ieee_exact", "C06_fold_sq_ieee_exact", "C06_in_exact_domain_hyps",
+                "C06_bw_summary_ieee_exact_on_grid", "C06_bw_summary_ieee_in_domain"]
     RULE = ("bigBed: 1-6 chromosomes, per chromosome a start-sorted BED layout from the grammar disjoint/partly overlapping/nested/"
             "identical/zero-length/very-long-then-short/dense/gaps relative to the first resolution, options compress x items_per_slot"
             "{1,2,3,7,1024} x zoom modes x single/two pass, plus a malformed stream (unsorted, start>end, start>=length, unknown "
